@@ -88,3 +88,43 @@ Fixpoint read_all (outs : list (list N * err)) (acc : list N) : option (option (
     | EFail => Some None
     end
   end.
+
+(* ---- the cache directory as another process sees it WHILE the download runs ------------
+   retrieveAndSaveFile writes into an os.CreateTemp file ("*.tmp", a name no reader looks up)
+   and links it under the final name afterwards. [into_temp] = that is what the text does
+   (Generated.copy_goes_into_temporary_file); false = the bytes go straight into the file
+   that carries the final name. One state after the file was created and one after every
+   body read of io.Copy, then the state retrieveAndSaveFile leaves behind. *)
+Definition dir_during (into_temp : bool) (d : cdir) (written : list N) : cdir :=
+  if into_temp then {| adv := adv d; tmps := tmps d ++ [written] |}
+  else {| adv := Some written; tmps := tmps d |}.
+
+Fixpoint copy_trace (fuel : nat) (into_temp : bool) (d : cdir) (b : body) (evs : list rd_ev) (acc : list N) : list cdir :=
+  match fuel with
+  | O => []
+  | S fuel' =>
+    let '(out, e, b', evs') := body_read b copy_buf evs in
+    let now := dir_during into_temp d (acc ++ out) in
+    match e with
+    | ENone => now :: copy_trace fuel' into_temp d b' evs' (acc ++ out)
+    | EEOF | EFail => [now]
+    end
+  end.
+
+Definition retrieve_trace (cs : cshape) (into_temp : bool) (dat : list N) (c : conn_ev) (rds : list rd_ev) (d : cdir) : list cdir :=
+  match c with
+  | CErr | CStatus => [d]
+  | CServe | CServeAs _ | CCloseDelim _ _ =>
+    let b := {| rest := match c with CCloseDelim _ n => firstn n dat | _ => dat end; dead := false |} in
+    dir_during into_temp d [] :: copy_trace (S (S (List.length dat))) into_temp d b rds [] ++
+    match retrieve cs dat c rds d with
+    | Ok (d', ok, _) =>
+        if into_temp then [d']
+        else [match copy_all (S (S (List.length dat))) b rds [] with
+              | Ok (w, okc, _) => if okc || negb (copy_decides cs) || negb (removes_tmp cs)
+                                  then {| adv := Some w; tmps := tmps d |} else {| adv := None; tmps := tmps d |}
+              | _ => d
+              end]
+    | _ => []
+    end
+  end.
